@@ -44,6 +44,8 @@ ASSUMPTIONS = [
 ]
 
 K_WIRE = "is_isomorphic:wire-continuity:false-equal"
+# fixed in /repo (edge_match now compares the roles of all parallel edges); kept as a *regression* key: it is no longer in
+# known_findings.txt, so a reappearance is reported as a VIOLATION
 K_IDENT = "remove_redundant:identity-on-parallel-wires:false-distinct"
 
 
@@ -307,7 +309,7 @@ def shrink_pair(res, drv, n_before, kind, c1, c2, want_state):
     if len(res.violations) <= n_before or getattr(res, "_shrunk", 0) >= 4:
         return
     key = res.violations[n_before]["key"]
-    if key in (K_WIRE, K_IDENT):
+    if key == K_WIRE:
         return
     res._shrunk = getattr(res, "_shrunk", 0) + 1
 
@@ -538,10 +540,10 @@ def run_ident_witness(res, drv):
     res.evaluations += 1
     if len(kept) == 2:
         res.violation(K_IDENT, "remove_redundant_circuits keeps both CNOT;I;CNOT and CNOT;CNOT: an identity between two two-register "
-                      "operations changes the key order of their parallel edges and edge_match reads the first key only",
+                      "operations changes the key order of their parallel edges and edge_match must not depend on that order (regression of the fix)",
                       input={"kind": "witness:identity", "a": enc(a), "b": enc(b)})
     else:
-        res.known_gone.append(K_IDENT)
+        res.notes.append("identity between two two-register operations: remove_redundant_circuits keeps one circuit (edge_match fix in place)")
 
 
 def run_ged(res, rng, n):
@@ -595,7 +597,7 @@ def run(ctx):
     run_filters(res, drv, rng, 60 if q else 600)
     run_ged(res, rng, 12 if q else 60)
     # findings reproduced on this run
-    for key, desc in ((K_WIRE, "is_isomorphic false-equal"), (K_IDENT, "identity between two-register nodes")):
+    for key, desc in ((K_WIRE, "is_isomorphic false-equal"),):
         if any(v["key"] == key for v in res.violations):
             res.known.append((key, desc))
     res.extra["driver_lines"] = drv.n_lines
@@ -606,7 +608,7 @@ def run(ctx):
 def search(ctx, res, proof_broken):
     drv = Driver()
     run_pairs(res, drv, exhaustive_pairs()[:6000])
-    if not [v for v in res.violations if v["key"] not in (K_WIRE, K_IDENT)]:
+    if not [v for v in res.violations if v["key"] != K_WIRE]:
         run_pairs(res, drv, gen_pairs(ctx.rng, 3000))
     drv.close()
 
